@@ -40,10 +40,17 @@ def alphabet():
     ]
 
 
+def root_alphabet():
+    one = b"s:" + b"a" * 100 + b"|"  # a one-stem LRU of 103 bytes: head + tail as the ROOT node
+    one2 = b"s:" + b"a" * 99 + b"b|"
+    return [al.page(one, True), al.page(one2), al.page(one + b"p:k|"), al.page(A), al.links((one, A), (A, one2)), al.crawl((one2, (one, one2)),), al.create(one)]
+
+
 def spaces(tier):
     thorough = tier == "thorough"
     ops = alphabet()
     return [
+        (Cfg("never"), root_alphabet(), 3 if thorough else 2, "crash/never-root"),
         (Cfg("domain"), ops, 4 if thorough else 3, "crash/domain"),
         (Cfg("never", {A: "path2"}), ops, 3 if thorough else 2, "crash/never+path2"),
     ]
